@@ -147,6 +147,17 @@ static void drv_step(struct cmd *c)
 			j_close();
 		}
 		j_arr_close();
+		/* the same table indexed by id (0 = no built-in type) */
+		{
+			long long *sz = (long long *) calloc(0x804, sizeof(*sz)), *mn = (long long *) calloc(0x804, sizeof(*mn));
+			for (i = 0; i < sizeof(fixed_tab) / sizeof(*fixed_tab); i++) {
+				sz[fixed_tab[i].id] = (long long) fixed_tab[i].size;
+				mn[fixed_tab[i].id] = fixed_tab[i].managed;
+			}
+			j_ints("fixsize", sz, 0x804);
+			j_ints("fixman", mn, 0x804);
+			free(sz); free(mn);
+		}
 		/* range constants of types.h */
 		j_int("ifbase", MPT_ENUM(_TypeInterfaceBase));
 		j_int("ifadd", MPT_ENUM(_TypeInterfaceAdd) - MPT_ENUM(_TypeInterfaceBase));
